@@ -57,7 +57,39 @@ def run(p: Project, tier: str) -> Result:
             r.analysed_functions.add(fi.key)
             check_root(r, w, root, fi, ps)
     check_can_put(p, r)
+    check_blocking_flag_tests(p, r)
     return r
+
+
+def check_blocking_flag_tests(p, r):
+    """R7 (sibling agreement): every branch on the blocking mode tests the flag for truth (`if self.blocking`, `not self.blocking`, `== True / False`).
+    An identity test (`self.blocking is True`) in ONE of the branches sends every truthy value that is not the singleton True (1, numpy.bool_) into the
+    non-blocking code of that branch only: a machine configured as blocking then discards in front of a full out-edge under one routing policy and
+    waits under the others."""
+    r.rule('C09.R7', 'the blocking flag is tested for truth, never for identity, in every branch', 8)
+    n = 0
+    raw = p.raw()        # the source as written: the normaliser treats `X is True` and `X == True` alike for the flags it knows
+    for ci in tables.node_classes(raw):
+        for fi in ci.methods.values():
+            for c in walk_no_nested(fi.node):
+                if isinstance(c, ast.Compare) and len(c.ops) == 1:
+                    l, rgt = c.left, c.comparators[0]
+                    sides = [l, rgt]
+                    if any(self_attr(x) == 'blocking' for x in sides):
+                        n += 1
+                        key = site(fi, c, 'blocking-test')
+                        if isinstance(c.ops[0], (ast.Is, ast.IsNot)) and any(isinstance(x, ast.Constant) and isinstance(x.value, bool) for x in sides):
+                            r.fail('C09.R7', key, f'`{ast.unparse(c)}` is an identity test: a truthy flag that is not the singleton True (1, numpy.bool_(True)) takes '
+                                                  f'the non-blocking branch here and the blocking branch everywhere else', src(fi.module), c.lineno)
+                        else:
+                            r.ok('C09.R7', key, 'value comparison', src(fi.module), c.lineno)
+                elif isinstance(c, (ast.If, ast.While, ast.IfExp)):
+                    for x in ast.walk(c.test):
+                        if self_attr(x) == 'blocking' and not any(isinstance(y, ast.Compare) and x in (y.left, *y.comparators) for y in ast.walk(c.test)):
+                            n += 1
+                            r.ok('C09.R7', site(fi, c, 'blocking-test'), 'truth test', src(fi.module), c.lineno)
+    if n < 8:
+        raise AnalysisError(f'C09.R7: only {n} tests of the blocking flag found in the node classes')
 
 
 def check_root(r, w, root, fi, ps):
